@@ -372,6 +372,27 @@ def linear_transpose(fun, primals, duals):
     return AMat(alg.mmul(alg.tr(G.term), duals.term), (n,) + tuple(duals.shape[1:]), np.promote_types(G.dtype, duals.dtype), fresh=True)
 
 
+def where(mask, a, b):
+    _use("where")
+    if isinstance(mask, AMat) and isinstance(a, AMat) and isinstance(b, AMat) and mask.ndim == 1:
+        return AMat(alg.vwhere(mask.term, a.term, b.term), a.shape, np.promote_types(a.dtype, b.dtype), fresh=True)
+    raise Unsupported("where on non-vector operands")
+
+
+def max(x, axis=None, keepdims=False):
+    _use("max")
+    if isinstance(x, AMat) and x.ndim == 1 and not keepdims and axis in (None, 0, -1):
+        return SScal(alg.vmax_re(x.term), z3.RealVal(0), x.dtype)
+    raise Unsupported("max over a matrix axis")
+
+
+def min(x, axis=None, keepdims=False):
+    _use("min")
+    if isinstance(x, AMat) and x.ndim == 1 and not keepdims and axis in (None, 0, -1):
+        return SScal(alg.vmin_re(x.term), z3.RealVal(0), x.dtype)
+    raise Unsupported("min over a matrix axis")
+
+
 def iscomplexobj(x):
     _use("iscomplexobj")
     if isinstance(x, (SScal, AMat)):
